@@ -137,6 +137,16 @@ func init() {
 							Case: Case{Kind: "parse", Cfg: defaultCfg.Desc, Base: &b, Input: sc + "://" + hs + rest, Family: "host-sequences", Index: i}, Host: want.Fields0(fHostname)})
 					}
 				}
+				// the host of a network-path reference against a base of the same scheme is what parsing the absolute URL gives
+				if i%4 == 3 && sc != "file" && !strings.ContainsAny(plain, "/\\?#:@[]") {
+					hs := r.spell(cps, []int{0, 3}[i/4%2], true)
+					bb := sc + "://base.example/d/f?q"
+					or := c.cmpParse(d, defaultCfg, &bb, "//"+hs+rest, allButVerrs, true, "domain-reference", i)
+					if o0.Kind != or.Kind || o0.Kind == "U" && (o0.Fields[fHostname] != or.Fields[fHostname] || o0.Fields[fHref] != or.Fields[fHref]) {
+						c.Report(Finding{Class: "violation", What: fmt.Sprintf("the host as part of a reference gives another result: %q -> %s but %q against %s -> %s", mk(plain), o0.String(), "//"+hs+rest, bb, or.String()),
+							Case: Case{Kind: "parse", Cfg: defaultCfg.Desc, Base: &bb, Input: "//" + hs + rest, Family: "domain-reference", Index: i}, Host: o0.Fields0(fHostname)})
+					}
+				}
 				// every route to a special URL's host: the host setters give what parsing gives (or refuse where parsing fails), and
 				// the protocol setter - in any letter case - never makes a special URL out of a non-special one with its opaque host
 				if i%4 == 1 && sc != "file" && !strings.ContainsAny(plain, "/\\?#:@[]") {
